@@ -63,6 +63,13 @@ P["C07"] = dict(
     design_ref="3 TAB-idx, 4 C07",
 )
 
+P["C13"] = dict(
+    text="Units-of-measure inference over every usize value of the crate (union-find through copies, +/- , comparisons, ranges, argument/parameter and result links across calls): byte offsets (str::len, str::get, Span offsets, CharIndices) and character indices (Vec<char> length/index, Chars::count) must never meet in one value class (UNIT); no byte offset is moved by a literal number of bytes outside three audited ASCII cases (UNIT4); every token length comes from the character walker or char::len_utf8, never a literal (UNIT2); only the walker builds spans from offsets (UNIT3); Walker::get_span adds span_offset to both ends, Span::join is (min starts, max ends) on one file, Report::message wraps in the parent stack, and push_parent/pop_parent balance on every path (SPAN, PAIR). These decide, for all source texts including multi-byte characters anywhere, that locations are byte ranges on character boundaries converted consistently to line/column.",
+    note="Decides the location-validity clause structurally (two genuine defects found and repaired: CharCounter and the tokenizer fallback). Not decided: that the first error of every fault kind lies on the faulty line (behavioural).",
+    technique="static analysis: interprocedural units-of-measure (byte vs char) type inference by union-find over MIR, provenance of token lengths, who-may-construct lint, path-state balance check",
+    design_ref="3 UNIT, 4 C13",
+)
+
 NA_PENDING = "check not built yet (build in progress, see DESIGN.md section 9)"
 
 
